@@ -568,15 +568,10 @@ def removal_rechecks(ck, m):
             n += 1
             gets = [x for x, t2 in b.calls() if t2['f'].get('dargs', '').startswith(VM + 'get') and b.dominates(x, bi)]
             controlled = False
-            for sb in b.reachable():
-                ts = b.term(sb)
-                if ts['k'] != 'switch' or not b.dominates(sb, bi):
-                    continue
-                # the switch decides the removal: some successor cannot reach it
-                succ = [x for x in b.succ(sb) if not b.blocks[x].get('cleanup')]
-                if all(bi in b.reach_from([x], include_start=True) for x in succ):
-                    continue
-                calls, _params = backward_slice(b, ts['o'])
+            from nl.locks import controlling_switches
+            # the switches that decide the removal within one loop iteration (control dependence with the back edges cut)
+            for sb in controlling_switches(b, bi):
+                calls, _params = backward_slice(b, b.term(sb)['o'], control=True)
                 if calls & set(gets):
                     controlled = True
             ck.ob('C01.j', short(b.id), 'removal-decided-on-the-current-entry', controlled,
